@@ -269,3 +269,194 @@ def check_C15(ctx, rep):
     rep.assumptions += ['ordering/time properties of the queue machinery and the "exactly that many when the run ends" count are NOT decided',
                         'every CFG path is treated as feasible']
     return 'producer table of packet events in the simulator, queue completeness, final sort'
+
+
+# =================================================================== shared helpers for C16-C18
+
+def side_state_field(e, field):
+    """(param index, ok) when e is <state param>.field of a SimState parameter"""
+    e = unload(e)
+    if isinstance(e, tuple) and e and e[0] == 'fld' and e[3] == field and e[2].endswith('SimState'):
+        r = root_of(e)
+        if r[0] == 'param':
+            return r[1]
+    return None
+
+
+def trigger_event_aggs(fa, variant):
+    """TriggerEvent::<variant> aggregates: [(site, fields)]"""
+    return [(site, flds) for (site, var, flds, ln) in aggregates(fa, 'event::TriggerEvent') if var == variant]
+
+
+def producers(prog, an, variant):
+    """hand-written functions of the simulator constructing TriggerEvent::<variant>"""
+    out = []
+    for fn in prog.crate_fns(SIM):
+        if not fn.has_body or fn.derived:
+            continue
+        if trigger_event_aggs(an.get(fn), variant):
+            out.append(fn)
+    return out
+
+
+def action_field(e, variant, field):
+    sf = src_field(e)
+    return sf is not None and sf[0].endswith('TriggerAction') and sf[1] == variant and sf[2] == field
+
+
+# =================================================================== C16
+
+def check_C16(ctx, rep):
+    prog, an = ctx.prog, ctx.an
+    rep.rule('C16.R1', 'BlockOutgoing arm of do_scheduled_action, per side: blocking_until and blocking_bypassable are stored together under one '
+             'guard that contains the action\'s replace flag or the later-expiry test; the stored expiry is a.time + duration and the flag is the '
+             'action\'s bypass; the client branch writes only the client state and vice versa; a BlockingBegin{machine} carrying the action\'s '
+             'machine is returned on every path through the arm')
+    rep.rule('C16.R2', 'the expiry branch of pick_next clears blocking_until of the expiring side and builds exactly one BlockingEnd at '
+             'current_time + b (+ reporting delay); BlockingBegin is built only in do_scheduled_action and BlockingEnd only in pick_next')
+    rep.rule('C16.R3', 'when BlockingBegin is produced blocking_until of that side is definitely Some (typestate of the Option slot): on every '
+             'path either the slot was just stored Some or it was tested to be Some')
+    rep.rule('C16.R4', 'side consistency of the bypass decision in peek_queue: a state\'s blocking_bypassable is consulted only on paths where the '
+             'peeked event belongs to that same side, and peek_queue_earliest_side receives until/bypassable of one state with the matching side flag')
+    ds = sim_fn(prog, 'do_scheduled_action')
+    fa = an.get(ds)
+    rep.analysed(ds)
+    arms, rest, other, swb = arms_on(prog, fa, 'maybenot::action::TriggerAction', lambda e: True)
+    if 'BlockOutgoing' not in arms:
+        rep.fail_closed('C16.R1', 'do_scheduled_action: BlockOutgoing arm')
+        return ''
+    head = arms['BlockOutgoing']
+    region = fa.cfg.reachable_from(head)
+    rs = lambda pe, val: is_field(pe, 'blocking_until', 'SimState') or is_field(pe, 'blocking_bypassable', 'SimState')
+    pf = an.paths(ds, history=True, record_stores=rs, tag='blk')
+    # returns in the arm
+    n_ret = 0
+    for (b, k, v) in ret_defs(fa):
+        if b not in region or not fa.cfg.dominates(head, b):
+            continue
+        n_ret += 1
+        ok = v[0] == 'agg' and v[2] == 'Some'
+        ev = None
+        if ok:
+            se = dict(v[3])['0']
+            ok = se[0] == 'agg' and se[1].endswith('SimEvent')
+            if ok:
+                fl = dict(se[3])
+                ev = fl.get('event')
+                ok = ev[0] == 'agg' and ev[2] == 'BlockingBegin' and action_field(dict(ev[3]).get('machine'), 'BlockOutgoing', 'machine')
+        rep.ob('C16.R1', ds, 'BlockingBegin-returned-on-every-path', ok, 'arm returns %s' % shape(v)[:70])
+        if not ok:
+            continue
+        # per path: paired stores, side consistency, typestate
+        for S in pf.at(b, k):
+            side_true = [f for f in S if f[0] == 'btrue' and unload(f[1]) == ('local', None)]
+            st_until = [f for f in S if f[0] == 'stored' and f[1][1] == 'blocking_until']
+            st_byp = [f for f in S if f[0] == 'stored' and f[1][1] == 'blocking_bypassable']
+            sides_u = {root_of(f[2])[1] for f in st_until if root_of(f[2])[0] == 'param'}
+            sides_b = {root_of(f[2])[1] for f in st_byp if root_of(f[2])[0] == 'param'}
+            rep.ob('C16.R1', ds, 'expiry-and-bypass-flag-stored-together', sides_u == sides_b, 'until stored for %s, bypassable stored for %s' % (sorted(sides_u), sorted(sides_b)))
+            rep.ob('C16.R1', ds, 'one-side-per-path', len(sides_u) <= 1, '')
+            # which side is this path: is_client flag
+            isc = [f[2] for f in S if f[0] == 'btrue' and f[1][0] == 'load' and f[1][1][0] == 'local']
+            # typestate: stored, or tested Some
+            for sd in (1, 2):
+                pass
+            side = None
+            for f in S:
+                if f[0] == 'btrue' and contains(f[1], lambda x: isinstance(x, tuple) and x and x[0] == 'local') and not contains(f[1], lambda x: isinstance(x, tuple) and x and x[0] == 'fld'):
+                    side = 1 if f[2] else 2
+            # the event's bypass field tells the side read
+            evb = fl.get('bypass')
+            sides_read = {side_state_field(x, 'blocking_bypassable') for x in (evb[1] if evb[0] == 'phi' else (evb,))} - {None}
+            if sides_u:
+                rep.ob('C16.R1', ds, 'stores-own-side-only', sides_u <= sides_read or not sides_read, 'stores side %s on a path reporting side %s' % (sorted(sides_u), sorted(sides_read)))
+            stored_some = any(f[3][0] == 'agg' and f[3][2] == 'Some' for f in st_until)
+            tested_some = any(f[0] == 'variant' and f[2] == 'Some' and side_state_field(f[1], 'blocking_until') is not None for f in S)
+            who = 'client' if (sides_u == {1} or (not sides_u and any(side_state_field(f[1], 'blocking_until') == 1 or contains(f, lambda x: side_state_field(x, 'blocking_until') == 1) for f in S))) else 'server'
+            if not sides_u:
+                # no store: which side's slot is compared on this path
+                cmpd = set()
+                for f in S:
+                    for x in walk(f):
+                        sp_ = side_state_field(x, 'blocking_until') if isinstance(x, tuple) else None
+                        if sp_:
+                            cmpd.add(sp_)
+                who = 'client' if cmpd == {1} else ('server' if cmpd == {2} else 'either')
+            rep.ob('C16.R3', ds, 'slot-definitely-Some-when-BlockingBegin:%s' % who, stored_some or tested_some,
+                   'BlockingBegin produced while blocking_until may be None (no store on this path and the slot was only read through unwrap_or)' if not (stored_some or tested_some) else '')
+            # guard of the stores
+            if st_until:
+                rp = any(f[0] == 'btrue' and f[2] is True and action_field(f[1], 'BlockOutgoing', 'replace') for f in S)
+                later = any(f[0] == 'cmp' and f[5] is True and f[1] in ('lt', 'le') and contains(f[2], lambda x: side_state_field(x, 'blocking_until') is not None) and
+                            contains(f[3], lambda x: action_field(x, 'BlockOutgoing', 'duration')) for f in S)
+                rep.ob('C16.R1', ds, 'store-guard-is-replace-or-later-expiry', rp or later, '' if (rp or later) else show_facts(S))
+                for f in st_until:
+                    v2 = f[3]
+                    okv = v2[0] == 'agg' and v2[2] == 'Some'
+                    if okv:
+                        x = dict(v2[3])['0']
+                        okv = is_call(x, '::add') or (x[0] == 'bin' and x[1] == 'Add')
+                        okv = okv and contains(x, lambda y: is_field(y, 'time', 'ScheduledAction')) and contains(x, lambda y: action_field(y, 'BlockOutgoing', 'duration'))
+                    rep.ob('C16.R1', ds, 'expiry-is-time-plus-duration', okv, 'stores %s' % shape(v2))
+                for f in st_byp:
+                    rep.ob('C16.R1', ds, 'flag-is-action-bypass', action_field(f[3], 'BlockOutgoing', 'bypass'), 'stores %s' % shape(f[3]))
+    rep.count_floor('C16.R1', 'returns in the BlockOutgoing arm', n_ret, 1)
+    # writers of the two fields across the crate
+    for fn in prog.crate_fns(SIM):
+        if not fn.has_body or fn.derived:
+            continue
+        fa2 = an.get(fn)
+        for fld_ in ('blocking_until', 'blocking_bypassable'):
+            for (pe, v, site) in field_stores(fa2, fld_, 'SimState'):
+                ok = fn.name in ('do_scheduled_action', 'pick_next') if fld_ == 'blocking_until' else fn.name == 'do_scheduled_action'
+                rep.ob('C16.R1', fn, 'writer:' + fld_, ok, '%s written in %s' % (fld_, fn.short()))
+    # ---- R2
+    pn = sim_fn(prog, 'pick_next')
+    pa = an.get(pn)
+    rep.analysed(pn)
+    pb = producers(prog, an, 'BlockingBegin')
+    pe_ = producers(prog, an, 'BlockingEnd')
+    rep.ob('C16.R2', '<inventory>', 'BlockingBegin-producers', [f.name for f in pb] == ['do_scheduled_action'], '%s' % [f.short() for f in pb])
+    rep.ob('C16.R2', '<inventory>', 'BlockingEnd-producers', [f.name for f in pe_] == ['pick_next'], '%s' % [f.short() for f in pe_])
+    ends = [(site, evn, evf, flds) for (site, evn, evf, flds, ln) in sim_events(pa) if evn == 'BlockingEnd']
+    rep.count_exact('C16.R2', 'BlockingEnd events built in pick_next', len(ends), 1)
+    rsn = lambda pe, val: is_field(pe, 'blocking_until', 'SimState')
+    ppf = an.paths(pn, history=True, record_stores=rsn, tag='until')
+    for (site, evn, evf, flds) in ends:
+        tm = flds.get('time')
+        okt = contains(tm, lambda x: x == ('param', 5)) and contains(tm, lambda x: is_call(x, 'peek_blocked_exp'))
+        rep.ob('C16.R2', pn, 'BlockingEnd-at-expiry', okt, 'time = %s' % shape(tm))
+        cl = flds.get('client')
+        okc = contains(cl, lambda x: is_call(x, 'peek_blocked_exp'))
+        rep.ob('C16.R2', pn, 'BlockingEnd-for-expiring-side', okc, 'client = %s' % shape(cl))
+        for S in ppf.at(site[0], site[1]):
+            cleared = [f for f in S if f[0] == 'stored' and f[3][0] == 'agg' and f[3][2] == 'None']
+            sides = {root_of(f[2])[1] for f in cleared}
+            side_flag = [f[2] for f in S if f[0] == 'btrue' and contains(f[1], lambda x: is_call(x, 'peek_blocked_exp'))]
+            want = {1 + 1} if side_flag and side_flag[0] else {3}
+            rep.ob('C16.R2', pn, 'expiry-clears-the-expiring-side', len(sides) == 1 and sides == want, 'cleared %s on a path with is_client=%s' % (sorted(sides), side_flag[:1]))
+    # ---- R4 peek side consistency
+    pq = sim_fn(prog, 'peek_queue')
+    qa = an.get(pq)
+    rep.analysed(pq)
+    qpf = an.paths(pq, history=True)
+    n_reads = 0
+    for (b, e) in switch_conditions(qa):
+        sp_ = side_state_field(e, 'blocking_bypassable')
+        if sp_ is None:
+            continue
+        n_reads += 1
+        want = (sp_ == 2)  # param 2 = client, param 3 = server
+        for S in qpf.at_entry(b):
+            ok = any(f[0] == 'btrue' and f[2] is want and is_field(f[1], 'client', 'SimEvent') for f in S)
+            rep.ob('C16.R4', pq, 'bypass-flag-of-own-side:%s' % ('client' if want else 'server'), ok, 'blocking_bypassable of param %d read on a path where peek.client is %s' % (sp_, 'not established' if not ok else want))
+    rep.count_floor('C16.R4', 'reads of blocking_bypassable in peek_queue conditions', n_reads, 2)
+    for (b, f, a, t) in calls(qa):
+        if callee_str(f).endswith('peek_queue_earliest_side'):
+            su, sb = side_state_field(a[1], 'blocking_until'), side_state_field(a[2], 'blocking_bypassable')
+            flag = num(a[5])
+            ok = su is not None and su == sb and flag is not None and ((su == 2) == bool(flag))
+            rep.ob('C16.R4', pq, 'earliest-side-args:%s' % ('client' if flag else 'server'), ok, 'until of param %s, bypassable of param %s, is_client %s' % (su, sb, flag))
+    rep.assumptions += ['which queued packet leaves while blocked (peek selection among queues) is NOT decided',
+                        'every CFG path is treated as feasible']
+    return 'handler tables for blocking in the simulator, Option-slot typestate, producer inventory, side consistency of the bypass decision'
